@@ -17,6 +17,8 @@ PER-DATASET - evaluate hands the correction function one element of
 <result>.pvalue (one dataset) at a time, never the pooled list.
 FLAGS-SRC - every definition of what evaluate hands to the result as flags
 contains a call of the correction function (no constant short cut).
+NAN-MASK - no NaN-ignoring numpy function (fmin, fmax, nan_to_num, nan*
+reductions) in bonferroni.py or in the Student test that feeds it.
 Not decided: behaviour under ties of argsort, floating-point division, the
 containment Bonferroni-flags-subset-of-Holm-flags as a numeric fact.
 '''
@@ -26,6 +28,7 @@ ASSUMPTIONS = ['numpy comparison semantics for NaN', 'np.argsort returns a '
 
 def check(ctx):
     ctx.run(stats.check_bonferroni)
+    ctx.run(stats.check_nan_mask, (stats.BON, stats.STU))
 
 
 def variants(program):
